@@ -29,6 +29,16 @@ def c15_programs(seed, tier):
         ps.append(progs.prog(f"refinalize{k}", [progs.new("g"), progs.blob(k, 1), {"op": "coord", "v": a}, progs.FIN, {"op": "coord", "v": b}, progs.FIN], cuts="coarse"))
     ps.append(progs.prog("refinalize_long", [progs.new("g"), progs.pc(p[0], 5, seed=seed), {"op": "coord", "v": "A" * 2500}, progs.FIN, {"op": "coord", "v": "B" * 2500}, progs.FIN]))
     ps.append(progs.prog("refinalize_grow", [progs.new("g"), progs.blob(30, 1), progs.FIN, progs.pc(p[0], 5, seed=seed), progs.FIN, {"op": "coord", "v": "x"}, progs.FIN]))
+    # every kind of call after a finalize, then finalize again: nothing written earlier may be overwritten
+    ps.append(progs.prog("image_after_finalize", [progs.new("g"), progs.image([progs.rep("visual", 300, salt=1, mask=90)], guid="one"), progs.pc(p[0], 12, seed=seed), progs.FIN,
+                                                  progs.image([progs.rep("visual", 650, salt=7), progs.rep("pinhole", 300, salt=9, focal=1.0, pw=1.0, ph=1.0, px=1.0, py=1.0)], guid="two"), progs.FIN]))
+    ps.append(progs.prog("all_after_finalize", [progs.new("g"), progs.blob(100, 1), progs.FIN, progs.image([progs.rep("visual", 200, salt=2)], guid="i"), progs.FIN,
+                                                progs.blob(300, 3), progs.FIN, progs.pc(p[1], 7, seed=seed), progs.FIN]))
+    # finalize with a caller's XML transformer: the transformed XML is the only one that may ever be accepted
+    ps.append(progs.prog("custom_finalize", [progs.new("g"), {"op": "coord", "v": "BEFORE-TRANSFORM"}, progs.pc(p[0], 20, seed=seed),
+                                             {"op": "finalize", "xml_replace": [["BEFORE-TRANSFORM", "AFTER-TRANSFORM-AND-LONGER"]]}]))
+    ps.append(progs.prog("custom_finalize_ext", [progs.new("g"), {"op": "ext", "ns": "fx", "url": "urn:fx"}, progs.blob(980, 1),
+                                                 {"op": "finalize", "xml_replace": [["</e57Root>", "<fx:note type=\"String\"><![CDATA[added by the caller]]></fx:note>\n</e57Root>"]]}]))
     n_extra = 40 if tier == "thorough" else 3
     for i in range(n_extra):
         steps = [progs.new(f"g{i}")]
